@@ -31,5 +31,8 @@ def check(ctx, rep):
     # (class and lossless flow of every To*Value impl; Duration units and the narrowing guard stay with C02)
     from . import values as V
     V.rule_flow(ctx, rep, 'R12')
+    # ... and a Duration count that does not fit into 64 bits is never truncated into the line (exact narrowing guard;
+    # which unit a kind uses stays with C02)
+    V.rule_units_and_guard(ctx, rep, units=False)
     # "the text handed to the sink is exactly ...": the client hands the formatted line to the sink unaltered
     K.rule_send_metric(fm, KeepOnly(rep, ('/emits-the-metric-text',), 'R13'))
